@@ -46,3 +46,14 @@ Example C13_example :
   exists st sorted n, subdivide release 1000 (fill_queue F2_A F2_B Union) Union = Ok (st, sorted, n)
                       /\ length sorted = 20%nat.
 Proof. vm_compute. do 3 eexists. split; reflexivity. Qed.
+
+(** the endpoints of every sub-segment returned by subdivide are input vertices or computed
+    intersection points (every instance, every input) *)
+From GB Require Import Provenance.
+Theorem C13_subsegment_endpoints_allowed :
+  forall (N : Num) (inp : list (pt N)) cfg fuel (A B : list (FillQueue.polygon N)) (op : operation)
+         (st : store N) (sorted : list eid) (n : nat),
+  polys_in N inp A -> polys_in N inp B ->
+  subdivide cfg fuel (fill_queue A B op) op = Ok (st, sorted, n) ->
+  forall i, In i sorted -> allowed N inp (point_of st i).
+Proof. exact subdivide_points_allowed. Qed.
